@@ -222,6 +222,8 @@ theorem ceff_torn {p0 : PImg} {live lo nd : Nat} {allowed covered : List Nat} {l
   case leaf k i es sib pid =>
     have hne : k ≠ live := by simpa [isLiveLeaf] using hl
     split at ht <;> (try split at ht) <;> simp only [Option.some.injEq] at ht <;> subst ht <;> exact Or.inl hne
+  case inode k seps pid =>
+    split at ht <;> simp only [Option.some.injEq] at ht <;> subst ht <;> exact he
 
 /-- steps that keep every image of the class -/
 def CStepOK (p0 : PImg) (live : Nat) (allowed covered : List Nat) (lv : LiveP) (lo nd : Nat) : Step → Prop
